@@ -315,7 +315,21 @@ var errPolicyRejects = fmt.Errorf("validity policy rejects this stack")
 // description leaves off are switched on and off again.
 var BuildStyle int
 
+var toggleSpell int
+
 func applyOpt(want bool, set, dep func(...bool)) {
+	switch BuildStyle {
+	case 2, 3:
+		if want && toggleSpell%2 == 1 {
+			// "passing nothing" has more than one spelling
+			if BuildStyle == 2 {
+				set([]bool{}...)
+			} else {
+				dep([]bool{}...)
+			}
+			return
+		}
+	}
 	switch BuildStyle {
 	case 1:
 		if want {
@@ -380,6 +394,7 @@ func init() {
 	core.BeforeCase = func(c *core.Ctx, m *core.Monitor, idx int) {
 		BuildStyle = (idx / 3) % 6
 		CapSpell = (idx / 7) % 6
+		toggleSpell = idx / 2
 		capSpellN = idx
 		AutoMutex = false
 		PastSpell = 0
@@ -388,7 +403,7 @@ func init() {
 			LeftErrStart = (idx/11)%8 == 3
 			PastSpell = 0
 			if (idx/13)%4 == 2 {
-				PastSpell = 1 + (idx/52)%3
+				PastSpell = 1 + (idx/52)%4
 			}
 			// (C10 and C11 run several goroutines against one structure and bring their own lock monitors)
 			AutoMutex = (idx/5)%4 == 0
